@@ -185,11 +185,11 @@ struct Interp : Sink
 	std::vector<ProcFrame> procs;
 	int fuel;
 	uint64_t logHash;
-	Rng aux;
+	Rng aux, fillRng;
 	std::vector<long> passedPerOp;
 	int curScriptSelf;
 
-	explicit Interp(const Plan & p) : plan(p), fuel(0), logHash(kHashInit), aux(p.schedSeed() ^ 0x7654321), curScriptSelf(-1)
+	explicit Interp(const Plan & p) : plan(p), fuel(0), logHash(kHashInit), aux(p.schedSeed() ^ 0x7654321), fillRng(p.schedSeed() ^ 0xf111), curScriptSelf(-1)
 	{
 		for(int i = 0; i < MAXSLOT; ++i) { slotObj[i] = -1; slotKey[i] = 0; slotUsed[i] = false; slotUnusable[i] = false; cbScript[i] = 0; }
 	}
@@ -710,7 +710,7 @@ struct Interp : Sink
 
 	void construct(int o, int src, bool move)
 	{
-		store[o].fill(plan.user(U_FILL) == 4 ? (int)aux.below(4) : plan.user(U_FILL), aux);
+		store[o].fill(plan.user(U_FILL) == 4 ? (int)fillRng.below(4) : plan.user(U_FILL), fillRng);   // its own stream: the fill pattern must not influence any other choice
 		++counters.dirtyConstructions;
 		{
 			FaultArm arm;
@@ -962,7 +962,7 @@ struct Gen
 		if(r < 85) return Op(O_TAKE, 0, 0, (int)rng.below(2), dOf(o, 0));
 		if(r < 89) return Op(O_CLEAR, 0, 0, 0, dOf(o, 0));
 		if(r < 95) return Op(O_EMPTYQ, 0, 0, 0, dOf(o, 0));
-		if(r < 97) return Op(O_DISPATCH, (int)rng.below(50), 0, 0, dOf(o, k));
+		if(r < 97 || mode == "c20") return Op(O_DISPATCH, (int)rng.below(50), 0, 0, dOf(o, k));
 		return Op(O_WAITFOR0, 0, 0, 0, dOf(o, 0));
 	}
 
@@ -1030,7 +1030,7 @@ struct Gen
 				else if(q < 60) op = Op(O_MOVE_ASSIGN, other, 0, 0, dOf(o, 0));
 				else if(q < 72) op = Op(O_SWAP, other, 0, 0, dOf(o, 0));
 				else if(q < 80) op = Op(O_DESTROY, 0, 0, 0, dOf(o, 0));
-				else if(q < 86) op = Op(O_CREATE, 0, 0, 0, dOf(o, 0));
+				else if(q < 86 || mode == "c20") op = Op(O_CREATE, 0, 0, 0, dOf(o, 0));
 				else if(q < 94) op = Op(O_DQN_OPEN, 0, 0, 0, dOf(o, 0));
 				else op = Op(O_DQN_CLOSE, 0, 0, 0, dOf(o, 0));
 				ops.push_back(op);
@@ -1060,6 +1060,29 @@ void execute(const Plan & plan, RunOut & out)
 {
 	seq::installHooks();
 	const int v = plan.user(sq::U_VARIANT);
+	if(mode == "c20") {
+		// the same plan under three Threading / prototype variants and three storage fill patterns: one event log
+		static const int vs[] = { sq::V_PLAIN_SINGLE, sq::V_BYVALUE_MULTI, sq::V_PLAIN_SIM };
+		uint64_t ref = 0; bool have = false; long sub = 0;
+		for(int vi = 0; vi < 3 && !out.violation; ++vi) {
+			for(int fill = 0; fill < 3 && !out.violation; ++fill) {
+				Plan p2 = plan;
+				p2.user(sq::U_VARIANT) = vs[vi]; p2.user(sq::U_FILL) = fill;
+				RunOut o2;
+				if(vs[vi] == sq::V_PLAIN_SINGLE) sq::runVariant0(p2, o2); else if(vs[vi] == sq::V_BYVALUE_MULTI) sq::runVariant1(p2, o2); else sq::runVariant6(p2, o2);
+				++sub;
+				if(o2.violation) out.fail(o2.cls, "[variant " + std::to_string(vs[vi]) + ", fill pattern " + std::to_string(fill) + "] " + o2.detail);
+				else if(!have) { ref = o2.logHash; have = true; }
+				else if(o2.logHash != ref) out.fail("configuration-dependent-behaviour", "variant " + std::to_string(vs[vi]) + " with fill pattern " + std::to_string(fill) + " produced a different event log than the first configuration for the same plan");
+				out.caseHash = o2.caseHash;
+			}
+		}
+		out.logHash = ref; out.subRuns = sub;
+		out.steps = (long)(plan.tasks.empty() ? 0 : plan.tasks[0].size());
+		++sq::counters.plans;
+		out.nontrivial = true;
+		return;
+	}
 	switch(v) {
 	case 0: sq::runVariant0(plan, out); break; case 1: sq::runVariant1(plan, out); break; case 2: sq::runVariant2(plan, out); break;
 	case 3: sq::runVariant3(plan, out); break; case 4: sq::runVariant4(plan, out); break; case 5: sq::runVariant5(plan, out); break;
